@@ -625,6 +625,24 @@ func genC09(w *bufio.Writer, rng *hx.Rng, tier string) {
 		}
 		w.WriteByte('\n')
 	}
+	// the real elasticsearch output with a dead queue that blocks on its first call while later batches follow
+	nesdq := 14
+	if tier == "thorough" {
+		nesdq = 150
+	}
+	for i := 0; i < nesdq; i++ {
+		bsize := 1 + i%3
+		nb := 3 + i%4
+		fmt.Fprintf(w, "c09.esdq %d %d %d", i%2, bsize, nb)
+		for k := 0; k < nb; k++ {
+			f := 0
+			if k == 0 && i%7 != 6 || (k > 0 && rng.Chance(1, 3)) {
+				f = 1
+			}
+			fmt.Fprintf(w, " %d", f)
+		}
+		w.WriteByte('\n')
+	}
 	for i := 0; i < nrand; i++ {
 		workers := rng.Range(1, 3)
 		count := rng.Range(1, 4)
